@@ -63,6 +63,23 @@ fn corpus(quick: bool) -> Vec<(String, String)> {
     for (n, p) in crate::families::static_family() {
         out.push((format!("static-{n}.simf"), p.render()));
     }
+    // look-alike neighbours: programs that reuse a name (alias, function, witness, variable) or a whole text shape with
+    // another meaning, adjacent in compilation order, in both orders -- anything a process remembers from one
+    // compilation shows in the next one when compared with a fresh process (simc)
+    let twins: [(&str, &str); 6] = [
+        ("type Word = u32;\nfn main() {\n    let x: Word = 70000;\n    assert!(jet::eq_32(x, 70000));\n}\n", "type Word = u16;\nfn main() {\n    let x: Word = 7;\n    assert!(jet::eq_16(x, 7));\n}\n"),
+        ("type Amount = u64;\nfn main() {\n    let p: (Amount, Amount) = (1, 2);\n    let (a, b): (Amount, Amount) = p;\n    assert!(jet::eq_64(a, 1));\n}\n", "type Amount = u32;\nfn main() {\n    let p: (Amount, Amount) = (1, 2);\n    let (a, b): (Amount, Amount) = p;\n    assert!(jet::eq_32(a, 1));\n}\n"),
+        ("fn f(a: u8) -> u8 {\n    a\n}\nfn main() {\n    assert!(jet::eq_8(f(1), 1));\n}\n", "fn f(a: u16) -> u16 {\n    jet::max_16(a, 5)\n}\nfn main() {\n    assert!(jet::eq_16(f(1), 5));\n}\n"),
+        ("fn main() {\n    let x: u8 = 1;\n    assert!(jet::eq_8(x, 1));\n}\n", "fn main() {\n    let x: u8 = 2;\n    assert!(jet::eq_8(x, 2));\n}\n"),
+        ("fn main() {\n    let w: u8 = witness::A;\n    assert!(jet::eq_8(w, w));\n}\n", "fn main() {\n    let w: u16 = witness::A;\n    assert!(jet::eq_16(w, w));\n}\n"),
+        ("type T = Option<u8>;\nfn g(x: T) -> bool {\n    is_none::<u8>(x)\n}\nfn main() {\n    assert!(g(None));\n}\n", "type T = Either<u8, u16>;\nfn g(x: T) -> bool {\n    match x {\n        Left(l: u8) => true,\n        Right(r: u16) => false,\n    }\n}\nfn main() {\n    assert!(g(Left(1)));\n}\n"),
+    ];
+    for (i, (a, b)) in twins.iter().enumerate() {
+        out.push((format!("twin-{i:02}-0a.simf"), a.to_string()));
+        out.push((format!("twin-{i:02}-0b.simf"), b.to_string()));
+        out.push((format!("twin-{i:02}-1a.simf"), b.to_string()));
+        out.push((format!("twin-{i:02}-1b.simf"), a.to_string()));
+    }
     // rejected texts
     let bad = [
         "", "fn main() {", "fn main() { let x: u8 = 256; }", "fn main() { let x: u8 = y; }", "fn f() {}", "fn main() { assert!(1); }", "type A = B; fn main() {}", "fn main() { jet::verify(true); }", "fn main() -> u8 { 1 }",
